@@ -99,10 +99,10 @@ def shape(script):
     parts = []
     for op in script["ops"]:
         s = op["op"]
-        if op["op"] == "write":
-            s += "<2000" if op["tmo"] < 2000 else ""
         if op["op"] == "connect":
-            s += f"({op['atype']},v{cfg[2]})"
+            s += f"({op['atype']})"
+        if op["op"] in ("write", "connect"):
+            s += "<2000" if op["tmo"] < 2000 else ""
         fr = op.get("frames") or []
         if fr:
             s += "{" + ",".join(kind_of(f, cfg) for f in fr) + "}"
@@ -130,7 +130,10 @@ def _frame_txt(D, item):
             return f"hnack:{int(p.GenericHeaderNACKCode)}"
     except Exception:  # noqa: BLE001
         pass
-    return "other:" + type(item).__name__
+    try:
+        return "other:" + type(item[1]).__name__
+    except Exception:  # noqa: BLE001
+        return "other:" + type(item).__name__
 
 
 async def _gateway(reader, arr, t0):
@@ -337,10 +340,9 @@ def _judge(script, impl, model):
                     f"op {i} ({op['op']}): alive-check requests complete at {lb} ms are answered at {la} ms")
         if ra != rb:
             if op["op"] == "write":
+                # "completes iff acknowledged, otherwise fails with a connection error within the acknowledgement time"
                 ok_a, ok_b = ra == "ok", rb == "ok"
-                viol = ok_a != ok_b or (not ok_a and ra not in ("timeout",) and int(ta) - (int(tb) - 0) > 0 and int(ta) > sb["now"])
-                if ra.startswith("exc:") or ra == "stall":
-                    viol = True
+                viol = ok_a != ok_b or ra.startswith("exc:") or ra == "stall" or (not ok_a and int(ta) > int(tb))
                 return ("write-result", bool(viol), f"op {i}: write gives {a['res']}, acknowledgement rule gives {b['res']}")
             if op["op"] == "read":
                 viol = ra.startswith("msg:") or rb.startswith("msg:") or ra.startswith("exc:") or ra == "stall"
@@ -555,6 +557,22 @@ def gen_scripts(ctx):
             for pos in POSITIONS:
                 scripts.append(("reader-ends:" + pos, template(pre + [b] + [okack], pos, CFGS[0])))
 
+    # 5b. codec: frames of the dispatched payload types with arbitrary (mostly short / boundary) payloads, idle
+    for _ in range(ctx.pick(400, 4000)):
+        cfg = rng.choice(CFGS)
+        fr = []
+        for _ in range(rng.randint(1, 3)):
+            pt = rng.choice([0x0000, 0x0006, 0x0007, 0x8001, 0x8002, 0x8003, 0x8001, 0x8002, 0x8003, rng.randrange(65536)])
+            n = rng.choice([0, 1, 2, 3, 4, 5, 6, 8, 9, 10, 13, rng.randint(0, 40)])
+            pl = bytes(rng.choice([0, 0, 0, rng.randrange(256)]) for _ in range(n))
+            if rng.random() < 0.5 and n >= 4:
+                pl = struct.pack("!HH", cfg[1], cfg[0]) + pl[4:]
+            v = cfg[2]
+            inv = (v ^ 0xFF) if rng.random() < 0.95 else rng.randrange(256)
+            fr.append(["raw", v, inv, pt, n, pl.hex()])
+        scripts.append(("codec-fuzz", {"cfg": list(cfg), "ops": [op_idle(fr, 10), op_read(200),
+                                                                op_write(frames=[["ackp", cfg[1], cfg[0], ""]], delay=5)]}))
+
     # 6. connect: activation request layout for all 256 activation types x versions x addresses; response codes
     for at in range(256):
         for ver in (1, 2, 3, 0, 0xFF) if not ctx.quick or at % 16 in (0, 1, 2) or at >= 0xE0 else (3, 2):
@@ -711,8 +729,30 @@ def replay(ctx, case):
 
 
 MANIFEST = {
-    "level_text": "",
-    "level_note": "",
+    "level_text": ("Lean 4 theorems over an executable model of the DoIP transport: routing activation request layout for all "
+                   "256 activation types / versions / source addresses and 'usable iff the first routing activation response "
+                   "within the activation time carries the success code'; 8-byte-header framing as an instance of the generic "
+                   "cutter (every segmentation yields the same frames; encoded gateway frames are queued exactly as sent; the "
+                   "reader task queues the same frames, answers the same alive checks and ends in the same cases under any two "
+                   "segmentations of one stream); a read delivers the first queued diagnostic message of the configured pair "
+                   "and removes exactly it (iff), successive reads deliver in arrival order, acknowledgement waits keep that "
+                   "order, nothing skipped is lost (also on timeout); a write completes iff the first frame passing the "
+                   "acknowledgement test within the acknowledgement time is a positive or TargetUnreachable acknowledgement, "
+                   "otherwise fails with a connection error no later than that time; the bytes written during a blocked read / "
+                   "write / idle period are exactly one alive-check response per request at its arrival instant (the reader "
+                   "never waits for the client); characterisation of the reordering caused by the tail re-queue of the pinned "
+                   "tree with the concrete witness. Payload types, codes, timing parameters, struct formats, dispatch list and "
+                   "enum _missing_ tables are regenerated from the code on every run and tied by agreement theorems. "
+                   "Correspondence: real DoIPConnection / DoIPTransport over in-memory streams under virtual time on all frame "
+                   "sequences up to length 4 (quick) / 5 + sampled 6 (thorough) over the gateway alphabet x 4 injection "
+                   "positions, every single split point of short streams, seeded multi-splits, timing around the "
+                   "acknowledgement time, malformed frames, all 256 activation types and response codes."),
+    "level_note": ("Trusted: Lean kernel (axioms propext, Quot.sound, Classical.choice), asyncio contracts (StreamReader."
+                   "readexactly, Queue FIFO, wait_for cancellation, Lock release), struct, the generator and the harness. "
+                   "Partial: kernel TCP behaviour, drain() back-pressure and wall-clock latency of the alive-check reply are "
+                   "not modelled ('within the alive-check time' is 'at the virtual instant the request is complete'); one "
+                   "client task at a time (concurrent users are C05); the op-level theorems assume the reader task does not "
+                   "meet a frame it cannot unpack during the call (that case is modelled and tied, its consequences are C08)."),
     "technique": "Lean 4 proof (generic framing lemma, induction over queues and event timelines) + regenerated tables + "
                  "differential correspondence against the real DoIPConnection / DoIPTransport under virtual time",
     "design_ref": "DESIGN.md section 7, C06",
